@@ -207,7 +207,10 @@ class SymExec(object):
         if isinstance(n, ast.BinOp):
             return ('binop', _BINOPS.get(type(n.op), '?'), E(n.left), E(n.right))
         if isinstance(n, ast.UnaryOp):
-            return ('unop', _UNOPS.get(type(n.op), '?'), E(n.operand))
+            v = E(n.operand)
+            if isinstance(n.op, ast.USub) and v[0] == 'const' and isinstance(v[1], (int, float)) and not isinstance(v[1], bool):
+                return ('const', -v[1])
+            return ('unop', _UNOPS.get(type(n.op), '?'), v)
         if isinstance(n, ast.BoolOp):
             is_and = isinstance(n.op, ast.And)
             vals = []
@@ -264,6 +267,7 @@ class SymExec(object):
             elt = self.ev(n.elt, sub)
             for e in sub.events[len(st.events):]:
                 st.events.append(('in-comp',) + tuple(e))
+            st.data = sub.data      # hook state set while evaluating the element expression
             kind = {ast.ListComp: 'listcomp', ast.SetComp: 'setcomp', ast.GeneratorExp: 'genexp'}[type(n)]
             return (kind, elt, tuple(gens))
         if isinstance(n, ast.DictComp):
